@@ -23,6 +23,7 @@ Map read_mem(const std::vector<uint8_t>& b) {
 	uint8_t* heap = static_cast<uint8_t*>(malloc(b.size() ? b.size() : 1));
 	struct F { uint8_t* p; ~F() { free(p); } } g{heap};
 	if (!b.empty()) memcpy(heap, b.data(), b.size());
+	if (fnv1a(b.data(), b.size()) & 1) return Map::ReadMap(Stream::MemoryReader(heap, b.size()));   // the overload taking a temporary stream
 	Stream::MemoryReader r(heap, b.size());
 	return Map::ReadMap(r);
 }
